@@ -138,6 +138,8 @@ type vSession struct {
 	calls  []vCall
 	fail   map[string]bool
 	closed int
+	// backend Idle calls started / returned
+	idleStarted, idleReturned int
 	// optional behaviours
 	onList   func(w *ListWriter) error
 	onFetch  func(w *FetchWriter) error
@@ -249,11 +251,20 @@ func (s *vSession) Idle(w *UpdateWriter, stop <-chan struct{}) error {
 	if err := s.rec(vCall{op: "Idle"}); err != nil {
 		return err
 	}
+	s.idleStarted++
+	defer func() { s.idleReturned++ }()
 	if s.onIdle != nil {
 		return s.onIdle(w, stop)
 	}
 	<-stop
 	return nil
+}
+
+// vSettle lets the other goroutines run until cond holds (bounded).
+func vSettle(cond func() bool) {
+	for i := 0; i < 200 && (i < 3 || !cond()); i++ {
+		time.Sleep(time.Millisecond) // (a yield under the executor)
+	}
 }
 func (s *vSession) Unselect() error { return s.rec(vCall{op: "Unselect"}) }
 func (s *vSession) Expunge(w *ExpungeWriter, uids *imap.UIDSet) error {
